@@ -126,7 +126,7 @@ def expected(cfg):
     role, subset, name = cfg["role"], cfg["subset"], cfg["name"]
     order = ["data", "builtin", "local", "global", "extra"] if role in ("arg", "bqarg", "kwarg", "nested") else ["builtin", "local", "global", "extra"]
     defined = set(subset)
-    if name == "scale":
+    if name in ("scale", "Sum"):
         defined.add("builtin")
     if not name.isidentifier():
         defined.discard("local")
@@ -143,12 +143,13 @@ def configs():
     scopes4 = ["data", "local", "global", "extra"]
     subsets = [list(c) for n in range(5) for c in itertools.combinations(scopes4, n)]
     for k in range(4):
-        for name in ("wz", "scale"):
+        for name in ("wz", "scale", "Sum"):
             for sub in subsets:
                 out.append({"role": "arg", "name": name, "k": k, "subset": sub})
                 if any(s in sub for s in ("local", "global", "extra")):
                     out.append({"role": "arg", "name": name, "k": k, "subset": sub, "none": True})
-                out.append({"role": "callee", "name": name, "k": k, "subset": sub})
+                if name != "Sum":  # calling the built-in encoding class on a column is not a valid term
+                    out.append({"role": "callee", "name": name, "k": k, "subset": sub})
                 out.append({"role": "kwarg", "name": name, "k": k, "subset": sub})
                 if k in (0, 2):
                     out.append({"role": "nested", "name": name, "k": k, "subset": sub})
@@ -232,7 +233,7 @@ def check_case(case, acc):
             return f"{names.get(o[1], 'a decoy / other value ' + str(o[1]))}"
         acc.violation(clause, "winner", case, f"role={case['role']} name={case['name']!r} env={case['k']} defined in {case['subset']}: resolved to {show(got)}, expected {show(want)}")
     else:
-        acc.case(case, "ok", nontrivial=len(case["subset"]) + (case["name"] == "scale") >= 2)
+        acc.case(case, "ok", nontrivial=len(case["subset"]) + (case["name"] in ("scale", "Sum")) >= 2)
 
 
 def classify(case, clause, sig, detail):
